@@ -100,7 +100,7 @@ pub fn new_mytype() -> (r: io::Result<MyType>) { unimplemented!() }
 // ---- the argument structs of the steps, as the repository's generator emits them for the interface definition (G1, regenerated on every run) ----
 '''
 for a in ["Test07_Args_struct"] + ["Test%02d_Args" % i for i in range(1, 12)] + ["End_Args"]:
-    out += "//@itemx file=%s kind=struct name=%s\n//@sub P4 count=*\nvarlink :: StringHashMap < String >\nStringHashMap<String>\n//@sub P5 count=*\nvarlink :: StringHashSet\nvarlink::StringHashSet\n//@enditem\n" % (GEN, a)
+    out += "//@itemx file=%s kind=struct name=%s\n//@sub P4 count=*\nvarlink\\s*::\\s*StringHashMap\\s*<\\s*String\\s*>\nStringHashMap<String>\n//@sub P5 count=*\nvarlink\\s*::\\s*StringHashSet\nvarlink::StringHashSet\n//@enditem\n" % (GEN, a)
 out += '''
 // ---- the request checks, verbatim from main.rs after R39 (`Some(&P)` / `ref x`: reference patterns written in match-ergonomics form), R3, R6, R40, T10 ----
 '''
